@@ -693,3 +693,38 @@ def buffer_bodies(rnd):
     out.append(memoryview(bytearray(big)))
     out.append(bytearray(big))
     return out
+
+
+PREFIX_STEMS = ['x', 'x-', 'x-max', 'x-max-length', 'x-max-length-bytes',
+                'a', 'ab', 'abc', 'abc.d', 'q', 'q1', 'q10', 'q2', 'key',
+                'key ', 'key-', 'key.', 'key0', 'keyA', 'key_', 'keya',
+                'K', 'Key', '\u00e9', '\u00e9a', '\u00e9\U0001F600', 'z',
+                'z\x00', 'z\x01', 'zz']
+
+
+def prefix_family_table(rnd, n):
+    """A table of exactly n entries in which many names are proper prefixes
+    of other names and the character after the shared prefix is '-', '.',
+    ' ', a digit, a letter of either case, NUL or beyond the BMP - with
+    values of every kind (so that a sort over anything but the name itself,
+    e.g. over the encoded entry, goes wrong somewhere)."""
+    names = []
+    for s0 in PREFIX_STEMS:
+        names.append(s0)
+    base = rnd.choice(PREFIX_STEMS)
+    for c in '-. 09AZaz_\x00\x7f\u00e9\U0001F600':
+        names.append(base + c)
+        names.append(base + c + rnd.choice('abc'))
+    rnd.shuffle(names)
+    out = {}
+    for nm in names:
+        if len(out) >= n:
+            break
+        out[nm] = leaf(rnd)
+    i = 0
+    while len(out) < n:
+        out['pad%04d' % i] = leaf(rnd, rnd.choice(['int', 'bool', 'str']))
+        i += 1
+    items = list(out.items())
+    rnd.shuffle(items)
+    return dict(items)
